@@ -9,7 +9,9 @@ POS, NEG, NEUTRAL = ref.POS, ref.NEG, ref.NEUTRAL
 
 
 def words(alphabet, min_size=1, max_size=60):
-    return st.text(alphabet=alphabet, min_size=min_size, max_size=max_size)
+    # lists of sampled_from rather than st.text(alphabet=...): alphabets that depend on earlier draws trip the
+    # Hypothesis 6.168 shrinker's sort_key ("ValueError: 69 is not in list") with text strategies
+    return st.lists(st.sampled_from(list(alphabet)), min_size=min_size, max_size=max_size).map("".join)
 
 
 @st.composite
@@ -79,7 +81,7 @@ def lengths(draw, min_len, max_len):
 
 
 def exact_words(alphabet, n):
-    return st.text(alphabet=alphabet, min_size=n, max_size=n)
+    return st.lists(st.sampled_from(list(alphabet)), min_size=n, max_size=n).map("".join)
 
 
 @st.composite
